@@ -71,6 +71,8 @@ def _(v):
     iz = v.eng.math1(v.st, "sqrt", 4 - ix * ix - iy * iy)
     izc = [t for t in _find_apps(np_.z, "m_sqrt") if _find_apps(t, "if") or "If" in str(t.arg(0))[:400]]
     v.ground("one_iz", len(izc) == 1, "sqrt(fabs(..)) applications found in np.z: %d" % len(izc))
+    if len(izc) != 1:
+        return
     izc = izc[0]
     only(v, v.prove("iz_code", izc == iz, order=("z3",)),
          axioms_of(v, izc) + axioms_of(v, iz) + [h_ for h_ in v.st.pc if h_.eq(ix * ix + iy * iy < 4)])
